@@ -7,7 +7,7 @@ import subprocess
 
 from .facts import VERIF, repo_path
 
-WITNESS_PROPS = {"C03", "C04", "C11", "C13", "C16", "C18", "C20"}
+WITNESS_PROPS = {"C03", "C04", "C11", "C13", "C16", "C18", "C19", "C20"}
 CLIPPY_PROPS = {"C20", "C03", "C04"}
 
 
@@ -18,7 +18,7 @@ def run_witnesses(ctx):
     m = re.search(r"test result: (\w+)\. (\d+) passed; (\d+) failed", p.stdout)
     passed = int(m.group(2)) if m else 0
     failed = int(m.group(3)) if m else -1
-    ok = p.returncode == 0 and failed == 0 and passed >= 15
+    ok = p.returncode == 0 and failed == 0 and passed >= 17
     failing = re.findall(r"^test (src/lib.rs - \S+ \(line \d+\)) \.\.\. FAILED", p.stdout, re.M)
     ctx.ob("W", "witnesses/compile_fail-and-twins", ok, "witness/src/lib.rs",
            "%d doctests: every compile_fail witness fails with its declared error code and every twin compiles" % passed if ok else
